@@ -21,6 +21,7 @@ func (ex *Exec) call(fr *Frame, in ssa.Instruction, c *ssa.CallCommon, st *State
 	for _, a := range c.Args {
 		args = append(args, ex.val(fr, a))
 	}
+	ex.callSiteAsserts(fr, in, c, st, pc, pos)
 	if b, ok := c.Value.(*ssa.Builtin); ok {
 		return ex.builtin(fr, b, c, args, st, pc, pos)
 	}
@@ -59,7 +60,13 @@ func (ex *Exec) callValue(fr *Frame, fv Val, ft types.Type, args []Val, st *Stat
 		pc = And(pc, g)
 	}
 	sig := under(ft).(*types.Signature)
-	// contract attached to the function type? (e.g. layer4.Handler values are invoked through interfaces instead)
+	// a contract attached to the named function type: "(pkg.Type).call"
+	if nt, ok := types.Unalias(ft).(*types.Named); ok {
+		key := "(" + typeKey(nt) + ").call"
+		if ct, ok := ex.P.cs.ByKey[key]; ok {
+			return ex.applyContract(fr, key, sig, ct, args, st, pc, pos)
+		}
+	}
 	return ex.unknownCall(fr, "func value "+ft.String(), sig, args, st, pc, pos)
 }
 
@@ -143,6 +150,7 @@ func (ex *Exec) callFunc(fr *Frame, fn *ssa.Function, args []Val, bind []Val, st
 // arguments is havoc'd; the callee is recorded as unchecked (it may panic).
 func (ex *Exec) unknownCall(fr *Frame, name string, sig *types.Signature, args []Val, st *State, pc *Term, pos token.Pos) (Val, *Term) {
 	ex.unchecked[name] = true
+	pc = ex.callbackEffects(fr, st, pc)
 	if !ex.initMode {
 		seen := map[string]bool{}
 		params := sig.Params()
@@ -485,6 +493,9 @@ func (ex *Exec) applyContract(fr *Frame, name string, sig *types.Signature, ct *
 		pc = And(append([]*Term{pc}, ex.pendingAssume...)...)
 		ex.pendingAssume = nil
 	}
+	if ct.Callsback {
+		pc = ex.callbackEffects(fr, st, pc)
+	}
 	switch rs.Len() {
 	case 0:
 		return TupleV{}, pc
@@ -493,6 +504,99 @@ func (ex *Exec) applyContract(fr *Frame, name string, sig *types.Signature, ct *
 	}
 	_ = rt
 	return TupleV(rets), pc
+}
+
+// callbackEffects: an opaque callee may have invoked, any number of times, the closures this frame
+// created (they may have escaped into it). For each closure: the cells it writes are havoc'd (earlier
+// invocations), its body is executed once more on arbitrary arguments that satisfy its contract's
+// precondition (the last invocation), and the result is merged with "not invoked at all".
+func (ex *Exec) callbackEffects(fr *Frame, st *State, pc *Term) *Term {
+	if fr == nil || len(fr.closures) == 0 || ex.inCallback > 0 {
+		return pc
+	}
+	ex.inCallback++
+	defer func() { ex.inCallback-- }()
+	savedDisc, savedPend := ex.discover, ex.pendingAssume
+	defer func() { ex.discover, ex.pendingAssume = savedDisc, savedPend }()
+	for _, cl := range fr.closures {
+		fn := cl.Fn
+		mkArgs := func() ([]Val, *Term) {
+			var args []Val
+			var wf []*Term
+			for _, p := range fn.Params {
+				v := freshVal("cb$"+p.Name(), p.Type())
+				args = append(args, v)
+				wf = append(wf, ex.wfVal(p.Type(), v, st.now))
+			}
+			return args, And(wf...)
+		}
+		// 1. what does one invocation write?
+		args, awf := mkArgs()
+		wl := newWriteLog()
+		ex.discover = true
+		ex.pendingAssume = nil
+		ex.wlogs = append(ex.wlogs, wl)
+		limit := TS.n
+		pf := ex.newFrame(fn, args, cl.Bind, st, fr)
+		ex.run(pf, st.clone(), And(pc, awf))
+		ex.wlogs = ex.wlogs[:len(ex.wlogs)-1]
+		// 2. arbitrary earlier invocations: havoc those locations
+		hst := st.clone()
+		for name, refs := range wl.refs {
+			srt, ok := compSorts[name]
+			if !ok {
+				continue
+			}
+			whole := wl.whole[name]
+			for _, r := range refs {
+				if r.id > limit {
+					whole = true
+				}
+			}
+			if whole || !strings.HasPrefix(srt, "(Array Ref") {
+				ex.havocComp(hst, name)
+				continue
+			}
+			_, inner := arrParts(srt)
+			c := ex.get(hst, name, srt)
+			for _, r := range refs {
+				c = Store(c, r, Fresh("cb$"+name, inner))
+			}
+			hst.comp[name] = c
+			ex.noteWriteAt(name, nil)
+		}
+		for name := range wl.whole {
+			if _, done := wl.refs[name]; !done {
+				ex.havocComp(hst, name)
+			}
+		}
+		// 3. the last invocation, on arguments satisfying the closure's precondition
+		args2, awf2 := mkArgs()
+		nf := ex.newFrame(fn, args2, cl.Bind, hst, fr)
+		cpc := awf2
+		if nf.ct != nil {
+			func() {
+				defer func() { recover() }()
+				env := &SpecEnv{ex: ex, pkg: nf.ct.Pkg, vars: map[string]specBinding{}, cur: hst, old: hst, slSt: map[*SliceV]*State{}}
+				ex.bindParams(nf.ct, fn.Signature, args2, env)
+				for _, c := range nf.ct.Clauses {
+					if c.Kind == "requires" && c.Expr != nil {
+						cpc = And(cpc, ex.evalBool(c.Expr, env))
+					}
+				}
+			}()
+			ex.assumes["callers of the escaped closure "+ex.P.relName(fn)+" establish its precondition (interface contract of the handler chain)"] = true
+		}
+		ex.pendingAssume = nil
+		_, out, _ := ex.run(nf, hst, And(pc, cpc))
+		invoked := Fresh("cb$invoked", SBool)
+		m := newState()
+		m.extyp = st.extyp
+		ex.mergeInto(m, invoked, out, st)
+		*st = *m
+		pc = And(pc, Implies(invoked, cpc))
+	}
+	return pc
 }
 
 func (ex *Exec) preTags(cl *Clause) []string {
@@ -1000,5 +1104,91 @@ func (ex *Exec) reachableComps(t types.Type, seen map[string]bool, out *[]string
 			}
 		}
 		ex.reachableComps(u.Elem(), seen, out, depth+1)
+	}
+}
+
+func calleeName(c *ssa.CallCommon) string {
+	if c.IsInvoke() {
+		return c.Method.Name()
+	}
+	if f := c.StaticCallee(); f != nil {
+		return f.Name()
+	}
+	return ""
+}
+
+// callSiteAsserts emits the `atcall` obligations of the enclosing function's contract.
+func (ex *Exec) callSiteAsserts(fr *Frame, in ssa.Instruction, c *ssa.CallCommon, st *State, pc *Term, pos token.Pos) {
+	if fr.ct == nil || ex.discover {
+		return
+	}
+	name := calleeName(c)
+	if name == "" {
+		return
+	}
+	has := false
+	for _, cl := range fr.ct.Clauses {
+		if cl.Kind == "atcall" && cl.Callee == name {
+			has = true
+		}
+	}
+	if !has {
+		return
+	}
+	if fr.callOrd == nil {
+		// ordinals of the calls of each name in source-position order
+		type site struct {
+			in  ssa.Instruction
+			pos token.Pos
+			n   string
+		}
+		var sites []site
+		for _, b := range fr.fn.Blocks {
+			for _, i := range b.Instrs {
+				if cc, ok := i.(ssa.CallInstruction); ok {
+					if n := calleeName(cc.Common()); n != "" {
+						p := i.Pos()
+						if !p.IsValid() {
+							p = cc.Common().Pos()
+						}
+						sites = append(sites, site{i, p, n})
+					}
+				}
+			}
+		}
+		sort.SliceStable(sites, func(a, b int) bool { return sites[a].pos < sites[b].pos })
+		fr.callOrd = map[ssa.Instruction]int{}
+		cnt := map[string]int{}
+		for _, s := range sites {
+			cnt[s.n]++
+			fr.callOrd[s.in] = cnt[s.n]
+		}
+	}
+	ord := fr.callOrd[in]
+	idx := -1
+	for k, i := range in.Block().Instrs {
+		if i == in {
+			idx = k
+		}
+	}
+	for _, cl := range fr.ct.Clauses {
+		if cl.Kind != "atcall" || cl.Callee != name || cl.Loop != ord || cl.Expr == nil {
+			continue
+		}
+		env := ex.localEnv(fr, in.Block(), st)
+		env.atIdx = idx
+		func() {
+			defer func() {
+				if r := recover(); r != nil {
+					if se, ok := r.(specError); ok {
+						ex.P.bindErrors = append(ex.P.bindErrors, fmt.Sprintf("%s atcall %s#%d: %s", fr.ct.Key, name, ord, se.msg))
+						return
+					}
+					panic(r)
+				}
+			}()
+			g := ex.evalBool(cl.Expr, env)
+			ex.addObl(fr, "atcall", pos, pc, g, fmt.Sprintf("before call %d of %s: %s", ord, name, cl.Src), cl.Tags, cl)
+		}()
 	}
 }
